@@ -348,6 +348,197 @@ def scan_vs_loop(case, ctx):
 
 
 # ----------------------------------------------------------------------------
+class RCell(nn.Module):
+  """carry -> carry around a DSL program (the body shape remat_scan takes)."""
+  spec: Any = None
+  dim: int = 2
+
+  @nn.compact
+  def __call__(self, h):
+    inner = L.make_module(L.thaw(self.spec), self.dim, name='inner')
+    return jnp.tanh(inner(h)) + 0.5 * h
+
+
+def remat_scan_case():
+  role = st.sampled_from(['axis0', 'carry', 'carry'])
+  return st.fixed_dictionaries({
+      'prog': body_prog(), 'dim': st.integers(1, 3),
+      'lengths': st.lists(st.integers(1, 3), min_size=1, max_size=3),
+      'params_role': st.sampled_from(['axis0', 'axis0', 'axis1',
+                                      'broadcast']),
+      'stats_role': role, 'counters_role': role,
+      'split_params': st.booleans(),
+      'default_axes': st.booleans(),
+      'seed': st.integers(0, 2**16),
+  })
+
+
+def take_multi(tree, idx, axis):
+  for i in idx:
+    tree = take(tree, i, axis)
+  return tree
+
+
+@clause('remat_scan_vs_loop', strategy=remat_scan_case, quick=100,
+        thorough=4000, quick_shards=16, thorough_shards=16, shrink=False,
+        rule='nn.remat_scan over generated carry->carry bodies x lengths '
+        '(1-3 nested levels of 1-3 iterations) x role of each collection '
+        '(axis 0/1, broadcast, carry; or the default variable_axes={True:0}): '
+        'axis collections hold prod(lengths) slices with the lengths inserted '
+        'at the declared position, and apply equals the Python loop over all '
+        'prod(lengths) iterations in row-major order calling the unlifted '
+        'body (final carry, carried collections after every update, stacked '
+        'axis collections); non-trivial = >=2 nesting levels with >=2 '
+        'iterations in total and a carried or stacked mutable collection')
+def remat_scan_vs_loop(case, ctx):
+  prog, D = case['prog'], case['dim']
+  lengths = tuple(case['lengths'])
+  n = int(np.prod(lengths))
+  cols = cols_of(prog)
+  roles = {'params': case['params_role'], 'batch_stats': case['stats_role'],
+           'counters': case['counters_role']}
+  default_axes = case['default_axes']
+  if default_axes:
+    roles = {c: 'axis0' for c in roles}
+  variable_axes = {c: role_axis(r) for c, r in roles.items()
+                   if role_axis(r) is not None and c in cols}
+  broadcast = [c for c, r in roles.items() if r == 'broadcast' and c in cols]
+  carry = [c for c, r in roles.items() if r == 'carry' and c in cols]
+  spec = L.freeze_json(prog)
+  rng = np.random.default_rng(case['seed'])
+  x0 = rng.normal(size=(D,)).astype(np.float32)
+  split = case['split_params'] and roles['params'] != 'broadcast'
+  kw = {}
+  if not default_axes:
+    kw = dict(variable_axes=variable_axes, variable_broadcast=broadcast,
+              variable_carry=carry,
+              split_rngs={'params': split})
+  else:
+    split = True
+  with sut('nn.remat_scan'):
+    RS = nn.remat_scan(RCell, lengths=lengths, **kw)
+    scanned = RS(spec=spec, dim=D)
+  plain = RCell(spec=spec, dim=D)
+  keys = {'params': jax.random.key(case['seed'])}
+  with sut('plain init'):
+    Vp = unfreeze(plain.init(keys, jnp.asarray(x0)))
+
+  def insert(shape, k):
+    return shape[:k] + lengths + shape[k:]
+
+  if carry:
+    V = {}
+    for col in Vp:
+      if col in variable_axes:
+        k = variable_axes[col]
+        def mk(a, k=k):
+          a = np.asarray(a)
+          outs = [a * (1 + 0.25 * i) + (i if a.dtype.kind == 'i' else 0)
+                  for i in range(n)]
+          st_ = np.stack(outs, axis=0).reshape(lengths + a.shape)
+          # move the `lengths` block to position k
+          src = list(range(len(lengths)))
+          dst = list(range(k, k + len(lengths)))
+          return np.moveaxis(st_, src, dst).astype(a.dtype)
+        V[col] = jax.tree_util.tree_map(mk, Vp[col])
+      else:
+        V[col] = Vp[col]
+    ctx.note(labels=['manual-variables'])
+  else:
+    with sut('remat_scan init'):
+      y_i, V = scanned.init_with_output(keys, jnp.asarray(x0))
+    V = unfreeze(V)
+    ctx.note(labels=['scan-init'])
+  fp, fv = L.flat(Vp), L.flat(V)
+  require(set(fp) == set(fv), lambda: f'remat_scan init tree {sorted(fv)} != '
+          f'plain {sorted(fp)}')
+  for p, leaf in fv.items():
+    col = p[0]
+    base_shape = np.shape(fp[p])
+    if col in variable_axes:
+      k = variable_axes[col]
+      exp = insert(base_shape, k)
+      require(np.shape(leaf) == exp, lambda: f'{p}: shape {np.shape(leaf)}, '
+              f'expected {exp} (axis {k}, lengths {lengths})')
+      if col == 'params' and n >= 2 and p[-1] != 'bias' and not carry:
+        a = np.moveaxis(np.asarray(leaf), list(range(k, k + len(lengths))),
+                        list(range(len(lengths)))).reshape((n,) + base_shape)
+        same = all(np.array_equal(a[0], a[i]) for i in range(1, n))
+        distinct = len({a[i].tobytes() for i in range(n)}) == n
+        if split:
+          require(distinct, f'{p}: params rng is split but some of the {n} '
+                  'slices were initialised identically')
+        else:
+          require(same, f'{p}: params rng is not split but slices differ')
+    else:
+      require(np.shape(leaf) == base_shape, lambda: f'{p}: broadcast/carry '
+              f'collection has shape {np.shape(leaf)}, plain {base_shape}')
+  # carried collections immutable in apply: known finding C06:scan-carry-
+  # immutable; every mutable-capable collection is made mutable here
+  mutable = sorted(c for c in cols if c != 'params' and c not in broadcast)
+  if carry:
+    ctx.exclude('C06:scan-carry-immutable')
+  vin = {c: V[c] for c in V}
+  with sut('remat_scan apply'):
+    r = scanned.apply(vin, jnp.asarray(x0),
+                      mutable=mutable if mutable else False)
+  y_s, upd_s = r if mutable else (r, {})
+  # reference: row-major loop over all iterations
+  import itertools
+  h = x0
+  carry_state = {col: vin[col] for col in carry}
+  axis_out = {col: [] for col in variable_axes}
+  for idx in itertools.product(*[range(l) for l in lengths]):
+    v_i = {}
+    for col in vin:
+      if col in variable_axes:
+        v_i[col] = take_multi(vin[col], idx, variable_axes[col])
+      elif col in carry:
+        v_i[col] = carry_state[col]
+      else:
+        v_i[col] = vin[col]
+    mut_i = [col for col in mutable if col in variable_axes or col in carry]
+    rr = plain.apply(v_i, jnp.asarray(h), mutable=mut_i if mut_i else False)
+    if mut_i:
+      h, upd = rr
+      upd = unfreeze(upd)
+    else:
+      h, upd = rr, {}
+    for col in variable_axes:
+      axis_out[col].append(upd.get(col, v_i[col]) if col in mut_i
+                           else v_i[col])
+    for col in carry:
+      if col in upd:
+        carry_state[col] = upd[col]
+  require(close(y_s, h), lambda: f'remat_scan output {np.asarray(y_s)} != '
+          f'loop over {n} iterations {np.asarray(h)} (lengths={lengths}, '
+          f'roles={roles})')
+  upd_s = unfreeze(upd_s) if upd_s else {}
+  require(set(upd_s) == set(mutable), lambda: f'returned collections '
+          f'{sorted(upd_s)} != mutable {sorted(mutable)}')
+  for col in mutable:
+    if col in variable_axes:
+      k = variable_axes[col]
+      def restack(*leaves, k=k):
+        a = np.stack([np.asarray(x) for x in leaves], axis=0)
+        a = a.reshape(lengths + a.shape[1:])
+        return np.moveaxis(a, list(range(len(lengths))),
+                           list(range(k, k + len(lengths))))
+      exp = jax.tree_util.tree_map(restack, *axis_out[col])
+    elif col in carry:
+      exp = carry_state[col]
+    else:
+      exp = vin[col]
+    require(flat_close({col: upd_s[col]}, {col: exp}), lambda: f'collection '
+            f'{col} ({roles[col]}) after remat_scan differs from the loop '
+            f'(lengths={lengths})')
+  ctx.note(labels=[f'levels{len(lengths)}', f'n{n}',
+                   'default-axes' if default_axes else 'explicit'] +
+           sorted(f'{c}:{roles[c]}' for c in cols),
+           nontrivial=len(lengths) >= 2 and n >= 2 and bool(mutable))
+
+
+# ----------------------------------------------------------------------------
 def vmap_case():
   return st.fixed_dictionaries({
       'prog': body_prog(), 'dim': st.integers(1, 3),
